@@ -12,7 +12,7 @@ func drawWithinLimits(r *core.Rng, slotty, boundary bool) (*exifCase, bool) {
 	for try := 0; try < 8; try++ {
 		ec := drawExifCase(r, slotty, boundary && try < 4)
 		b := ec.build(false, true)
-		if withinLimits(b) {
+		if withinLimits(b) && b.MaxPending+ec.rec.NoteTags <= 84 {
 			return ec, true
 		}
 	}
@@ -63,7 +63,7 @@ func (e *C03) Run(c *core.Ctx, idx int) {
 			bad = append(bad, "error: "+errS)
 		}
 		bad = append(bad, ec.rec.Exp.Compare(got)...)
-		if got["Exif.ImageType"] != "u:8" {
+		if got["Exif.ImageType"] != "u:8" && !ec.rec.Exp.Any["Exif.ImageType"] {
 			bad = append(bad, "Exif.ImageType: got "+got["Exif.ImageType"]+" want u:8 (image/tiff)")
 		}
 		if len(bad) > 0 {
@@ -154,7 +154,7 @@ func (e *C06) Run(c *core.Ctx, idx int) {
 			}
 			// (a CR3 whose IFD0 is empty has a 14-byte CMT1 box, below the 16 bytes the CMT hand-off
 			// needs to recognise a TIFF header; no field exists in that file, the type is then not asserted)
-			if got["Exif.ImageType"] != fmt.Sprintf("u:%d", em.it) && !(em.name == "CR3" && len(ec.rec.IFD0.Entries) == 0) {
+			if got["Exif.ImageType"] != fmt.Sprintf("u:%d", em.it) && !(em.name == "CR3" && len(ec.rec.IFD0.Entries) == 0) && !ec.rec.Exp.Any["Exif.ImageType"] {
 				bad = append(bad, fmt.Sprintf("Exif.ImageType: got %s want u:%d", got["Exif.ImageType"], em.it))
 			}
 			bad = append(bad, ec.rec.Exp.Compare(got)...)
